@@ -154,12 +154,16 @@ def run(pid, rules, mutants=None, *, level="other", explanation="", not_decided=
             ck2 = Check(pid, tier, silent=True)
             extra_cfg(ck2, P2)
             cfg2 = {"obligations": len(ck2.obligations), "violations": len(ck2.violations())}
+            main_viol = {o["key"] for o in ck.obligations if o["status"] == "violation"}
             for v in ck2.violations():
+                if "anchor-missing" in v["key"]:
+                    continue  # binary-crate anchors are not part of the library-only configuration
+                if v["key"] in main_viol:
+                    continue  # same construct already reported (or listed as known finding) in the default configuration
                 v = dict(v)
                 v["key"] += "|cfg=nodefault"
                 v["what"] += " [configuration: --no-default-features]"
-                if not any(o["key"] == v["key"].rsplit("|cfg=", 1)[0] and o["status"] == "violation" for o in ck.obligations):
-                    ck.obligations.append(v)
+                ck.obligations.append(v)
         except facts.BrokenBuild as e:
             cfg2 = {"skipped": str(e)}
 
